@@ -49,7 +49,7 @@ NAMES = ["alpha", "beta", "gamma", "delta", "eps", "zeta", "eta", "theta"]
 @st.composite
 def template_program(draw, kinds=None):
     kind = draw(st.sampled_from(kinds)) if kinds else draw(st.sampled_from(["kwargs", "percent-keys", "or-union", "merge-union", "typeddict", "protocol", "in-union",
-                                 "set-literal", "format-keys", "dict-union", "generic-protocol", "generic-protocol", "collect", "collect", "global-rebind", "use-builtin", "shared-generic", "freed-signature", "freed-signature", "generic-union-order"]))
+                                 "set-literal", "format-keys", "dict-union", "generic-protocol", "generic-protocol", "collect", "collect", "global-rebind", "use-builtin", "shared-generic", "freed-signature", "freed-signature"]))
     names = draw(st.lists(st.sampled_from(NAMES), min_size=3, max_size=6, unique=True))
     head = "from typing import *\nfrom typing_extensions import *\n"
     if kind == "generic-protocol":
@@ -312,10 +312,43 @@ def make_machine(pool, col, found):
 # ----------------------------------------------------------------- shards
 
 
+def union_order_pairs(col):
+    """Two programs that use the same generic classes with the same union arguments written in different orders,
+    checked one after the other with ONE Checker; the second must render exactly as with a Checker of its own
+    (both renders are made in this process, so nothing outside the Checker can differ)."""
+    import itertools
+
+    fails = []
+    orders = list(itertools.permutations(["int", "str", "bytes"], 2))
+    for o1, o2 in itertools.permutations(orders, 2):
+        if set(o1) != set(o2):
+            continue
+        progs = []
+        for o in (o1, o2):
+            a = " | ".join(o)
+            b = " | ".join(reversed(["float", "None"] + list(o[:1])))
+            progs.append("from typing import *\n"
+                         f"def want(x: complex) -> None: ...\ndef g(xs: list[{a}], d: dict[str, {b}], t: tuple[{a}, ...], s: set[{a}]):\n"
+                         "    want(xs[0])\n    want(xs.pop())\n    for x in xs:\n        want(x)\n    want(d['k'])\n    want(d.get('k'))\n"
+                         "    want(t[0])\n    want(next(iter(s)))\n    want(next(iter(xs)))\n    return d.popitem()\n")
+        shared = sut.new_checker()
+        sut.check_source(progs[0], checker=shared)
+        after = [tuple(x) for x in render(sut.check_source(progs[1], checker=shared).diags)]
+        own = [tuple(x) for x in render(sut.check_source(progs[1], checker=sut.new_checker()).diags)]
+        col.case(nontrivial_id=("union-order-pair", o1, o2), label=["route:union-order-pair"])
+        if after != own:
+            diff = next((x, y) for x, y in zip(after, own) if x != y)
+            fails.append(("history|union-order-pair", f"a program using list[{' | '.join(o2)}] checked after one using list[{' | '.join(o1)}] with the same Checker "
+                          f"renders {str(diff[0][-1])[:160]!r}; with a Checker of its own {str(diff[1][-1])[:160]!r}", {"union_order_pair": [progs[0], progs[1]]}))
+            break
+    return fails
+
+
 def shards(tier, seed):
     k = 4 if tier == "quick" else 12
     out = [{"mode": "seeds", "index": i, "batches": 2 if tier == "quick" else 30, "k": k} for i in range(8)]
     out += [{"mode": "history", "index": i, "machines": 12 if tier == "quick" else 300, "steps": 25 if tier == "quick" else 50} for i in range(8)]
+    out.append({"mode": "union-order-pairs"})
     return out
 
 
@@ -324,6 +357,10 @@ def run_shard(spec):
 
     col = runner.Collector(spec)
     seed = runner.mix_seed(spec["seed"], ID, spec["name"])
+    if spec["mode"] == "union-order-pairs":
+        for key, what, case in union_order_pairs(col):
+            col.fail(key, what, case)
+        return col.result()
     if spec["mode"] == "seeds":
         def make():
             @given(st.lists(program_strategy(), min_size=20, max_size=20))
@@ -341,9 +378,8 @@ def run_shard(spec):
     @hypothesis.seed(seed)
     @runner.hyp_settings(8, shrink=False)
     @given(st.lists(program_strategy(), min_size=9, max_size=9),
-           st.lists(template_program(kinds=["global-rebind", "use-builtin", "generic-protocol", "shared-generic", "shared-generic",
-                                            "generic-union-order", "generic-union-order", "generic-union-order"]),
-                    min_size=7, max_size=7))
+           st.lists(template_program(kinds=["global-rebind", "use-builtin", "generic-protocol", "shared-generic", "shared-generic"]),
+                    min_size=5, max_size=5))
     def draw_pool(ps, probes):
         # every pool holds a few programs that write or read state shared between checks
         pool_holder.append(list(ps) + list(probes))
@@ -379,6 +415,16 @@ def run_shard(spec):
 
 
 def replay_all(case):
+    if "union_order_pair" in case:
+        p0, p1 = case["union_order_pair"]
+        shared = sut.new_checker()
+        sut.check_source(p0, checker=shared)
+        after = [tuple(x) for x in render(sut.check_source(p1, checker=shared).diags)]
+        own = [tuple(x) for x in render(sut.check_source(p1, checker=sut.new_checker()).diags)]
+        if after != own:
+            diff = next((x, y) for x, y in zip(after, own) if x != y)
+            return [{"key": "history|union-order-pair", "what": f"{str(diff[0][-1])[:160]!r} after the first program, {str(diff[1][-1])[:160]!r} with a Checker of its own", "case": case}]
+        return []
     if "history" in case:
         checker = sut.new_checker()
         srcs = case["history"]
